@@ -238,6 +238,17 @@ pub fn main(args: &Args) -> i32 {
             }
         };
     }
+    // harvested family: the definitions that ship with the repository (accepted ones must be free of silent ties, the
+    // must-fail test data must be rejected for the ties the product walk finds)
+    for h in model::harvest::harvest() {
+        run.count("harvested_defs", 1);
+        if let Err(msg) = check(&h.def, &mut run) {
+            run.violations = 1;
+            report_violation("C08", &args.replay_dir, &json!({"property": "C08", "tier": "G", "origin": h.origin, "def": h.def, "rendered_rust": model::prep::render(&h.def), "findings": [{"property": "C08", "what": msg}]}));
+            run.write_evidence(&args.evidence);
+            return 1;
+        }
+    }
     let cases = if args.cases > 0 { args.cases } else if args.thorough() { 80000 } else { 8000 };
     let res = drive(&conflict_defs(), cases, args.seed ^ 0xC08, 600, &mut run, |def, run| check(def, run));
     let code = match res {
